@@ -47,7 +47,7 @@ inductive Ev
   | lockI (i : Nat) (snap : List Char)
   | lockQ (x : Who) (snap : List Char)
   | unlockI (i : Nat)
-  | unlockQ (x : Who)
+  | unlockQ (x : Who) (hint : Option Nat)   -- resolver: the request its next getaddrinfo belongs to
   | create (i : Nat)
   | malloc (i : Nat)
   | signal (i : Nat)
@@ -204,11 +204,16 @@ def feed {ga : Nat → Int} (v : V ga) : Ev → R ga
   | .lockQ .w _ => do
     let v ← flush v .w
     act v .worker .wkAcquire "resolver locks queue"
-  | .unlockQ (.s i) => do
+  | .unlockQ (.s i) _ => do
     let v ← act v (.sub i) .append "append request"
     act v (.sub i) .qRelease "unlock queue"
-  | .unlockQ .w => do
-    let v ← act v .worker .wkPop "pop request (queue empty in the model)"
+  | .unlockQ .w hint => do
+    -- the code's list_pop is not observable; which request was taken shows in the resolver's
+    -- next getaddrinfo (`hint`, filled in by `annotate`); the model allows any queued request
+    let b := match hint with
+      | some b => b
+      | none => v.m.s.queue.headD 0
+    let v ← act v .worker (.wkPop b) "pop request (not in the model's queue: lost or foreign request)"
     act v .worker .wkRelease "resolver unlocks queue"
   | .signal i => act v (.sub i) .signal "cond_signal"
   | .ret i b rc snap => do
@@ -299,6 +304,19 @@ def feed {ga : Nat → Int} (v : V ga) : Ev → R ga
       .error "an item was not resolved exactly once and read back"
     else .ok v
 
+/-- the request the resolver works on next: its first getaddrinfo after the unlock -/
+def nextWorkerBatch : List Ev → Option Nat
+  | [] => none
+  | .gacall .w b _ _ :: _ => some b
+  | .unlockQ .w _ :: _ => none
+  | _ :: rest => nextWorkerBatch rest
+
+/-- fill in the hints of the resolver's unlock events by looking ahead in the trace -/
+def annotate : List Ev → List Ev
+  | [] => []
+  | .unlockQ .w _ :: rest => .unlockQ .w (nextWorkerBatch rest) :: annotate rest
+  | e :: rest => e :: annotate rest
+
 /-- validate a whole trace; `none` = accepted -/
 def feedAll {ga : Nat → Int} : V ga → Nat → List Ev → Except (Nat × String) (V ga)
   | v, _, [] => .ok v
@@ -308,7 +326,7 @@ def feedAll {ga : Nat → Int} : V ga → Nat → List Ev → Except (Nat × Str
     | .error msg => .error (n, msg)
 
 def accepts (ga : Nat → Int) (evs : List Ev) : Bool :=
-  match feedAll (ga := ga) { m := Walk.start ga } 0 evs with
+  match feedAll (ga := ga) { m := Walk.start ga } 0 (annotate evs) with
   | .ok _ => true
   | .error _ => false
 
